@@ -217,6 +217,21 @@ def run(prop, tier, seed):
         if st is None or "No error has been found" not in r["out"]:
             raise InfraError("LockEngine exhaustive check did not complete cleanly (design model, not a verdict on the code):\n" + r["out"][-3000:])
         mc_wall = r["wall"]
+        # (1a) C01: the lock-free key table (GetOrNewLockManager / RemoveLockManager / re-check), one step per atomic access
+        keytable = None
+        if prop == "C01":
+            with open(os.path.join(VERIF, "spec", "mc", "KeyTable_3p.cfg")) as fh:
+                ktcfg = fh.read()
+            if quick:
+                ktcfg = ktcfg.replace("MaxOps = 3", "MaxOps = 2")
+            rk = vtlc.run_tlc(os.path.join(VERIF, "spec"), "KeyTable", ktcfg, os.path.join(wd, "mc_keytable"), workers=engine.NCPU, timeout=900 if quick else 3600)
+            sk = vtlc.parse_stats(rk["out"])
+            if sk is None or "No error has been found" not in rk["out"]:
+                raise InfraError("KeyTable exhaustive check did not complete cleanly (design model, not a verdict on the code):\n" + rk["out"][-3000:])
+            keytable = {"module": "spec/KeyTable.tla", "processes": 2, "requests_each": 2 if quick else 3, "distinct_states": sk["distinct"],
+                        "generated": sk["generated"], "wall_s": round(rk["wall"], 1),
+                        "invariants": ["NoHoldInDeadManager", "OneManagerPerHeldKey", "RefsCoverHolds", "MutexOK"]}
+            st = {"distinct": st["distinct"] + sk["distinct"], "generated": st["generated"] + sk["generated"], "queue": 0}
         # (1b) C05 / C06: the timer wheel design model (back-off re-checks, long-table hand-over, sweeper lag, updates)
         wheel = None
         if prop in ("C05", "C06"):
@@ -305,7 +320,7 @@ def run(prop, tier, seed):
             "model": {"module": "spec/LockEngine.tla", "constants": "1 key, 3 LockIds, Count {0,1}, Rcount {0,1}, T {0,2}, E {0,2}, flags show/update/showupdate/conc/prio, unlock first/cancel, <= %d requests, clock <= %d" % ((3, 3) if quick else (4, 4)),
                       "invariants": ["HoldersWellFormed", "OneTerminalReply", "QueuedMeansLive", "NoLostWakeup", "WaitedFlagInv", "QueueOrderInv", "GrantOK", "RefusedUnlockChangesNothing", "NoEarlyTimeout"],
                       "wall_s": round(mc_wall, 1)},
-            "timer_wheel_model": wheel,
+            "timer_wheel_model": wheel, "key_table_model": keytable,
             "tlc_behaviours_replayed": len(beh), "tlc_behaviour_prefixes_printed": nprinted,
             "gated_concurrent_histories": len(conc), "tlc_fine_schedules_replayed": len(fine), "realtime_ms_histories": len(rt), "random_histories": len(rnd), "big_histories": len(big), "directed_histories": len(direct),
             "monitor": {"module": "spec/mon/MonLock.tla", "events": mst["events"], "monitor_states": mst["monitor_states"], "clauses_of": prop},
